@@ -57,6 +57,34 @@ type site struct {
 
 type flags struct {
 	UnknownEnum bool // an enum declared with maxval:N holds a value above N that still fits its width
+	// Work the decoder did until it stopped (success or error), the basis of the allocation bound:
+	Visits   uint64 // descriptor nodes visited (each costs the real decoder a constant: tag parsing, maps, ...)
+	GoBytes  uint64 // bytes of Go memory the decoded data needs: vector contents, arrays, sizeof(element) per vector element
+	CapByLen uint64 // model of a known mistake: sum over non-byte vectors of length-in-BYTES x sizeof(element)
+}
+
+// goSize over-estimates the size of the Go representation of one value of d (no reflection).
+func goSize(d *Desc) uint64 {
+	d = d.res()
+	switch d.K {
+	case KU8, KU16, KU24, KU32, KU64, KEnum:
+		return 8
+	case KArray:
+		return uint64(d.N+7) &^ 7
+	case KBytes, KVec:
+		return 24
+	case KStruct:
+		var n uint64
+		for i := range d.Fields {
+			if d.Fields[i].Arm {
+				n += 8
+				continue
+			}
+			n += goSize(&d.Fields[i].D)
+		}
+		return n
+	}
+	return 8
 }
 
 func putUint(out []byte, v uint64, w int) []byte {
@@ -239,6 +267,7 @@ func refDec(d *Desc, in []byte, q quirks) (Val, int, flags, error) {
 // the content of the enclosing vector for vector elements (only the D1 model cares about the difference).
 func (st *decState) dec(d *Desc, base []byte, off int) (Val, int, error) {
 	d = d.res()
+	st.fl.Visits++
 	rest := base[off:]
 	switch d.K {
 	case KU8, KU16, KU24, KU32, KU64:
@@ -268,6 +297,7 @@ func (st *decState) dec(d *Desc, base []byte, off int) (Val, int, error) {
 		if len(rest) < d.N {
 			return Val{}, off, fmt.Errorf("%w: [%d]byte, %d left", errTrunc, d.N, len(rest))
 		}
+		st.fl.GoBytes += uint64(d.N)
 		return Val{B: append(Hex{}, rest[:d.N]...)}, off + d.N, nil
 	case KBytes, KVec:
 		w := widthFor(d.Max)
@@ -290,6 +320,9 @@ func (st *decState) dec(d *Desc, base []byte, off int) (Val, int, error) {
 		}
 		body := rest[:n]
 		end := off + w + int(n)
+		if d.K == KBytes || d.Elem.res().K == KU8 {
+			st.fl.GoBytes += n // one copy of the content
+		}
 		if d.K == KBytes {
 			var v Val
 			if n > 0 {
@@ -297,8 +330,13 @@ func (st *decState) dec(d *Desc, base []byte, off int) (Val, int, error) {
 			}
 			return v, end, nil
 		}
+		esz := goSize(d.Elem)
+		if d.Elem.res().K != KU8 {
+			st.fl.CapByLen += n * esz
+		}
 		var v Val
 		for p := 0; p < len(body); {
+			st.fl.GoBytes += esz
 			ev, np, err := st.dec(d.Elem, body, p)
 			if err != nil {
 				return Val{}, off, err
